@@ -94,4 +94,10 @@ def proj (e : LEntry) : Bool × Option Oid := (e.isdir, e.hash)
 def viewItems (load : Oid → Option Listing) (idx : LIndex) (f : Key → Bool) : List (Key × LEntry) :=
   ((expand load idx).filter fun e => f e.1)
 
+/-- a filtered view iterated under a prefix (`DataIndexView.iteritems(prefix)`): the directory object the prefix lies in is
+    loaded first (as `DataIndex.iteritems` does), then whatever the filter accepts at or below the prefix -/
+def viewIter (load : Oid → Option Listing) (idx : LIndex) (f : Key → Bool) (pfx : Key) : LIndex × List (Key × LEntry) :=
+  let r := iterItems load idx pfx
+  (r.1, r.2.filter fun e => f e.1)
+
 end DvcData.IndexLazy
